@@ -5540,7 +5540,11 @@ impl<'a, 'graph> Builder<'a, 'graph> {
     let maybe_range = options.maybe_range;
     let maybe_source_phase_referrer = options.maybe_source_phase_referrer;
     let original_specifier = specifier;
-    let specifier = self.graph.redirects.get(specifier).unwrap_or(specifier);
+    // follow the whole chain of known redirects, otherwise a specifier whose
+    // pending slot was dropped when it redirected would be requested again
+    // (endlessly when the module at the end of the chain imports it)
+    let resolved_specifier = self.graph.resolve(specifier).clone();
+    let specifier = &resolved_specifier;
     if options.is_asset {
       // TODO(nayeemrmn): We need to load the module to validate the actual
       // media type for source-phase-import eligibility. Don't treat
@@ -5626,6 +5630,23 @@ impl<'a, 'graph> Builder<'a, 'graph> {
 
         return;
       }
+    }
+
+    if self.graph.redirects.contains_key(specifier) {
+      // the known redirects loop or are too many to follow, so loading
+      // the specifier would only redirect again
+      self.graph.module_slots.insert(
+        specifier.clone(),
+        ModuleSlot::Err(
+          ModuleErrorKind::Load {
+            specifier: specifier.clone(),
+            maybe_referrer: maybe_range.cloned(),
+            err: ModuleLoadError::TooManyRedirects,
+          }
+          .into_box(),
+        ),
+      );
+      return;
     }
 
     if let Some(version_info) = options.maybe_version_info {
